@@ -38,6 +38,30 @@ pub fn word_from_bits(bits: &[bool]) -> Word {
     Word::from_bits(&mut it, n).unwrap()
 }
 
+/// hidden root: an atom id, or the 256 bits themselves
+pub fn cmr_of(x: &J, default: u64) -> Cmr {
+    if let Some(a) = x.as_array() {
+        let bits: Vec<bool> = a.iter().map(|b| b.as_u64().unwrap() == 1).collect();
+        let bytes = bytes_from_bits(&bits);
+        let mut arr = [0u8; 32];
+        arr.copy_from_slice(&bytes[..32]);
+        Cmr::from_byte_array(arr)
+    } else {
+        atom_cmr(x.as_u64().unwrap_or(default))
+    }
+}
+pub fn entropy_of(x: &J) -> FailEntropy {
+    if let Some(a) = x.as_array() {
+        let bits: Vec<bool> = a.iter().map(|b| b.as_u64().unwrap() == 1).collect();
+        let bytes = bytes_from_bits(&bits);
+        let mut arr = [0u8; 64];
+        arr.copy_from_slice(&bytes[..64]);
+        FailEntropy::from_byte_array(arr)
+    } else {
+        atom_entropy(x.as_u64().unwrap_or(1))
+    }
+}
+
 /// Which jet family untyped "jet" ops of the spec resolve to.
 #[derive(Clone, Copy, PartialEq)]
 pub enum Family {
@@ -72,8 +96,8 @@ pub fn build_node<'b>(
         "comp" => CN::comp(&get(l), &get(r))?,
         "case" => CN::case(&get(l), &get(r))?,
         "pair" => CN::pair(&get(l), &get(r))?,
-        "assertl" => CN::assertl(&get(l), atom_cmr(x.as_u64().unwrap_or(1)))?,
-        "assertr" => CN::assertr(atom_cmr(x.as_u64().unwrap_or(2)), &get(l))?,
+        "assertl" => CN::assertl(&get(l), cmr_of(x, 1))?,
+        "assertr" => CN::assertr(cmr_of(x, 2), &get(l))?,
         "disc" => CN::disconnect(&get(l), &Some(get(r)))?,
         "disc1" => CN::disconnect(&get(l), &None)?,
         "witness" => {
@@ -81,7 +105,7 @@ pub fn build_node<'b>(
             let w: Option<Value> = if x.is_array() { Some(val_of(&x[1], &ty_of(&x[0]))) } else { None };
             CN::witness(ctx, w)
         }
-        "fail" => CN::fail(ctx, atom_entropy(x.as_u64().unwrap_or(1))),
+        "fail" => CN::fail(ctx, entropy_of(x)),
         "word0" => CN::const_word(ctx, Word::u1(x.as_u64().unwrap_or(1) as u8 & 1)),
         "word1" => CN::const_word(ctx, Word::u2(x.as_u64().unwrap_or(2) as u8 & 3)),
         "word" => CN::const_word(ctx, word_from_bits(&jbits(x))),
